@@ -40,6 +40,10 @@ class DefUse:
         for n in walker:
             if isinstance(n, ast.Assign):
                 for t in n.targets:
+                    if isinstance(t, ast.Subscript) and isinstance(t.value, ast.Name):
+                        # X[i] = v : the container X is (partly) computed from v
+                        self._add(Def(t.value.id, n.value, n, "setitem"))
+                        continue
                     multi = isinstance(t, (ast.Tuple, ast.List))
                     for name, i in _targets(t):
                         val = n.value
